@@ -19,6 +19,10 @@ CLAIMED["C01"] = ("jaxpr->SMT (z3) of two forward steps; discrete energy as one 
                   "bounded SMT verification: for every listed closed source-free scene (zero halo / PEC / PMC / periodic / Bloch / mixed faces; uniform and non-uniform grids; isotropic and diagonal eps, mu) z3 shows W(step k+1) == W(step k) for all real field values from an arbitrary wall-consistent state (inductive over steps); with conductivity the dissipation certificate identity and the sign of every certificate term",
                   "reals for floats; shapes <= 5x4x3; materials and conductivities are seeded exact rationals (not symbolic); oracle weights are the geometric staggered volumes", "4/C01")
 
+CLAIMED["C03"] = ("jaxpr->SMT (z3) of T forward steps with interface recording followed by T backward steps with reset",
+                  "bounded SMT verification: for every listed PML placement (single face, pairs, corner overlap, all faces; other faces periodic/PEC/PMC) z3 shows that after each reverse step E and H outside the PML equal the forward state of that step for all real interior fields and all positive inverse permittivities",
+                  "reals for floats; T <= 6, shapes <= 4x4x4, PML thickness 1-3; lossless recorder; default grading", "4/C03")
+
 NOT_APPLICABLE = {
     "C12": "numerical accuracy bound (1e-6 residual energy after >=1e3 steps on >=40^3 cells in floating point); no algebraic identity, far beyond any bounded real-arithmetic encoding",
     "C13": "1e-3 power-ratio bound after hundreds of steps (TFSF leakage is small but non-zero by design); not an identity, out of reach for bounded real arithmetic",
